@@ -137,6 +137,19 @@ fn lex_oracle(case: &Case, out: &Outcome) -> Result<bool, String> {
             }
             prev_end = off + len;
         }
+        if case.tags.iter().any(|t| t == "newline-after-token") {
+            let pos = if case.src.starts_with("x ") { 1 } else { 0 };
+            if toks.get(pos).map(|t| t[0]) == Some(case.aux.as_str()) {
+                let is_ender = crate::props4::DOC_ENDERS.contains(&case.aux.as_str());
+                let after = toks.get(pos + 1).map(|t| t[0]).unwrap_or("");
+                if is_ender && after != "SoftSemi" {
+                    return Err(format!("a newline after {} did not produce a terminator token", case.aux));
+                }
+                if !is_ender && after == "SoftSemi" {
+                    return Err(format!("a newline after {} produced a terminator token", case.aux));
+                }
+            }
+        }
         // Eof range inside the source
         let eoff: usize = toks[n - 1][3].parse().unwrap();
         if eoff > case.src.len() {
@@ -199,6 +212,16 @@ pub fn c07(ctx: &Ctx) -> PropResult {
             cases.push(Case::new(Kind::Lex, ctx_.replace('@', c)).tag("odd-character"));
         }
     }
+    // the implicit terminator is part of the token sequence: for every token kind, a newline (or a comment and a
+    // newline) after it yields a terminator exactly for the kinds the property names
+    for (kind, text) in extract::exemplars() {
+        if kind == "SoftSemi" || kind == "Eof" {
+            continue;
+        }
+        for src in [format!("{text}\n+ 1"), format!("x {text} // c\n y"), format!("x {text}\r\ny"), format!("x {text} \t\n\ny"), format!("{text}\n")] {
+            cases.push(Case::new(Kind::Lex, src).tag("newline-after-token").aux(kind.clone()));
+        }
+    }
     // identifiers that begin with a keyword, where the scanner looks ahead (after a newline, after `}`)
     let kws: Vec<String> = crate::props4::KEYWORDS_DOC.iter().map(|k| k.to_string()).collect();
     for src in crate::props6::keyword_prefixed_identifier_family(&kws) {
@@ -254,7 +277,7 @@ pub fn c07(ctx: &Ctx) -> PropResult {
     let stats = run_cases(&ctx.driver, cases, &lex_oracle, &no_known, ctx.threads);
     PropResult {
         stats,
-        rule: format!("every string of length <= {max_len} over a {}-symbol lexical alphabet (exhaustive), random strings to 24 units, mutated repository programs; non-trivial = at least two tokens before end-of-input, or a lexical error; 24 characters that tools put into files or that belong to other scripts (U+FEFF, no-break / zero-width spaces, line / paragraph separators, NEL, VT, FF, other digits and letters, U+10FFFF) at offset 0, after and between every symbol of the alphabet and in 21 program contexts; names that begin with a keyword after every statement-ending token", LEX_ALPHABET.len()),
+        rule: format!("every string of length <= {max_len} over a {}-symbol lexical alphabet (exhaustive), random strings to 24 units, mutated repository programs; non-trivial = at least two tokens before end-of-input, or a lexical error; 24 characters that tools put into files or that belong to other scripts (U+FEFF, no-break / zero-width spaces, line / paragraph separators, NEL, VT, FF, other digits and letters, U+10FFFF) at offset 0, after and between every symbol of the alphabet and in 21 program contexts; names that begin with a keyword after every statement-ending token; for every token kind a newline / comment + newline / CR LF / blank lines after it: a terminator token exactly for the kinds the property names", LEX_ALPHABET.len()),
         exhaustive: false,
         notes: vec![],
     }
